@@ -12,8 +12,10 @@ VARIABLES l
 Prop == IOEnv.VPROP
 
 IsNilRecv(ev) == "nilrecv" \in DOMAIN ev /\ ev.nilrecv
-ExpVal(ev) == NormVal(ev.schema, ev.val)
-ExpEnc(ev) == IF IsNilRecv(ev) THEN Lit(<<0>>) ELSE EncStruct(ev.schema, ExpVal(ev))
+ExpVal(ev) == IF ev.schema \in {"RawStr", "RawBin"} THEN ev.val ELSE NormVal(ev.schema, ev.val)
+ExpEnc(ev) == IF IsNilRecv(ev) THEN Lit(<<0>>)
+              ELSE IF ev.schema \in {"RawStr", "RawBin"} THEN Norm(StrEnc(ev.val.s1))   \* Binary.WriteString/BinaryNocopy called directly
+              ELSE EncStruct(ev.schema, ExpVal(ev))
 
 \* a written struct: lengths agree; bytes are the canonical encoding, or (map with >= 2 entries: Go map order is free)
 \* an encoding that reads back to the same value
